@@ -67,6 +67,8 @@ EvalE(P, e, env, st) ==
             LET i == EvalE(P, e.i, env, st) IN
             IF ~Ok(i.st) THEN i ELSE
             [v |-> i.st.cells[IF i.v % 2 = 0 THEN Env0.a0 ELSE Env0.a1], st |-> i.st]
+      [] e.k = "sl" ->        \* s[i] : the backing array is a cell shared by every copy of the slice
+            [v |-> st.cells[st.cells[env[e.s]].back][e.ix + 1], st |-> st]
       [] e.k = "deref" -> [v |-> st.cells[st.cells[env[e.p]].ptr], st |-> st]      \* *p
       [] e.k = "bin" ->
             LET l == EvalE(P, e.l, env, st)
@@ -294,6 +296,22 @@ ExecS(P, s, env, st0, ctx) ==
                 c    == EvalE(P, s.c, env1, st1)
                 b    == ExecB(P, IF c.v THEN s.th ELSE s.el, env1, c.st, ctx)
             IN [env |-> env, st |-> b.st, ctl |-> b.ctl]
+      [] s.k = "mksl" ->      \* s := []int{e1, e2, e3} : a NEW backing array at every evaluation
+            LET a == EvalArgs(P, s.es, env, st) IN
+            IF ~Ok(a.st) THEN R(env, a.st) ELSE
+            LET bc  == NewId(a.st)
+                st1 == Alloc(a.st, a.vs)
+            IN R(Bind(env, s.s, NewId(st1)), Alloc(st1, [back |-> bc]))
+      [] s.k = "slshare" ->   \* s2 := s1 : the copy shares the backing array
+            R(Bind(env, s.s, NewId(st)), Alloc(st, st.cells[env[s.from]]))
+      [] s.k = "slset" ->     \* s[i] = e  /  s[i] += e
+            LET v == EvalE(P, s.e, env, st)
+                bc == v.st.cells[env[s.s]].back
+                old == v.st.cells[bc][s.ix + 1]
+                n == IF s.op = "set" THEN v.v ELSE old + v.v
+            IN R(env, IF Ok(v.st) THEN Chk(Store(v.st, bc, [v.st.cells[bc] EXCEPT ![s.ix + 1] = n]), n) ELSE v.st)
+      [] s.k = "printsl" ->
+            LET b == st.cells[st.cells[env[s.s]].back] IN R(env, Emit1(st, <<"s", b[1], b[2], b[3]>>))
       [] s.k = "iswap" ->     \* arr[0], arr[1] = arr[1], arr[0]
             R(env, Store(Store(st, Env0.a0, st.cells[Env0.a1]), Env0.a1, st.cells[Env0.a0]))
       [] s.k = "mkptr" ->     \* p := &x
